@@ -248,6 +248,29 @@ def content_edits(ctx, F):
     need = {"Reference", "Array"}
     ctx.ob("R-SIB", "contents-forms|add_page_contents", need <= hv, "add_page_contents has arms for %s (get_page_contents reads %s)" % (sorted(hv & need), sorted(rv_ & need)), ap.where(),
            what="add_page_contents has no arm for /Contents given as %s: the content streams the page already has are replaced by the appended one (and pruned later) instead of being kept in front of it" % sorted(need - hv))
+    # ... and every element of the array is listed, in order and as often as it occurs: inside the loop over the array the push
+    # stands under no test but "there is a next element" and "it is a reference"
+    import inv as _inv
+    extra = []
+    npush = 0
+    for x in lib.local_scope(F, gp):
+        loops_ = x.loops()
+        for c in x.calls:
+            if not re.search(r"Vec::<.*>::push$", c.fn or ""):
+                continue
+            inl = [bl for h, bl in loops_.items() if c.bb in bl]
+            if not inl:
+                continue
+            npush += 1
+            bl = min(inl, key=len)
+            for g, s2 in lib.taken_edges(x, c.bb):
+                if g not in bl:
+                    continue
+                r = x.sname(x.term(g)["d"], 5)
+                if not re.match(r"^discr\((?:<.*?Iterator>::next|(?:\w+::)*as_reference)\(", r):
+                    extra.append("line %d: %s" % (c.ln, r[:80]))
+    ctx.ob("R-ORDER", "contents-listed-in-full|get_page_contents", npush >= 1 and not extra, "the push of a content stream id inside the loop depends only on the element being a reference", gp.where(),
+           what="get_page_contents does not list every element of a /Contents array (%s): a stream named twice, or one the extra test rejects, is missing from the page's content and is lost when the content is rewritten" % (extra or "no push in a loop"))
     ctx.ob("R-SIB", "contents-forms|get_page_contents", need <= rv_, "get_page_contents reads a reference and an array", gp.where(),
            what="get_page_contents no longer reads /Contents given as %s" % sorted(need - rv_))
 
@@ -260,6 +283,9 @@ def op_place_(o):
 def run(ctx):
     _run(ctx)
     content_edits(ctx, ctx.facts("default"))
+    # the incremental variants of the resource helpers: what they store into the update
+    import prop_c07
+    prop_c07.update_stores_copies_only(ctx, ctx.facts("default"))
     # renumbering is an editing operation too: the structural rules of C10 are part of "editing keeps the document sound"
     import prop_c10
     prop_c10.run(ctx, dangling_clause=False)   # "a reference that resolved to nothing still resolves to nothing" is C10's clause, not C11's
